@@ -324,6 +324,9 @@ class variable(Proposition):
         d = dataclasses.asdict(self)
         if self.bounds.as_tuple() == (0,1):
             del d['bounds']
+        else:
+            # plain numbers: bounds computed by assume() are numpy integers, which json cannot write
+            d['bounds'] = {k: (v.item() if isinstance(v, numpy.generic) else v) for k, v in d['bounds'].items()}
         return d
 
     def to_short(self) -> typing.Tuple[str, int, typing.List, int, typing.Tuple[int, int]]:
